@@ -693,6 +693,11 @@ func (w *world) close() {
 		fmt.Fprintln(os.Stderr, "deployh: cluster service did not shut down:", w.trackerString())
 		os.Exit(2)
 	}
+	w.mu.Lock()
+	if w.created != w.collected || w.exited != w.stopped {
+		fmt.Fprintln(os.Stderr, "deployh: manager outlived the service:", w.trackerString())
+	}
+	w.mu.Unlock()
 	w.cancel()
 	// The bus is deliberately left open (its idle goroutine is garbage of this short-lived process): the withdrawal
 	// helper of the real code dereferences a nil subscriber when Subscribe fails on a closed bus
@@ -789,26 +794,42 @@ func (w *world) observe() (resvHeld, hnHeld, ok bool) {
 	return resvHeld, hnHeld, true
 }
 
-// observeIfQuiescent records the release observations whenever nothing is in flight and no gate is closed
-// (the obligations "at quiescence" are judged at every such point, not only at the end of a script).
-func (w *world) observeIfQuiescent() {
+// observeStable records the release observations at a stable point (nothing left to do for the last stimulus) unless the
+// hostname service is held at the gate; Q marks the quiescent ones (nothing in flight, no gate closed), where the
+// obligations "at quiescence" are judged.
+func (w *world) observeStable() {
 	w.mu.Lock()
+	held := w.hnGateHeld
 	q := w.stableLocked() && w.inCall == 0 && !w.hnGateHeld && len(w.calls) == 0
 	w.mu.Unlock()
-	if q {
-		w.observeFinal()
+	if held {
+		return
 	}
+	w.observeRecord(q)
 }
 
 func (w *world) observeFinal() {
 	w.mu.Lock()
-	dup := len(w.raws) > 0 && w.raws[len(w.raws)-1].K == "obs"
+	dup := len(w.raws) > 0 && w.raws[len(w.raws)-1].K == "obs" && w.raws[len(w.raws)-1].C == "q"
 	w.mu.Unlock()
 	if dup {
-		return // nothing happened since the last observation
+		return // nothing happened since the last quiescent observation
 	}
+	w.observeRecord(true)
+}
+
+func (w *world) observeRecord(q bool) {
 	resv, hn, ok := w.observe()
-	r := raw{Th: "H", K: "obs", Runch: resv, Err: hn, R: "ok"}
+	w.mu.Lock()
+	shut := w.svcShutReq
+	w.mu.Unlock()
+	r := raw{Th: "H", K: "obs", Runch: resv, Err: hn, R: "ok", State: "resv-known"}
+	if shut {
+		r.State = "resv-unknown" // Status() is refused once the service shuts down
+	}
+	if q {
+		r.C = "q"
+	}
 	if !ok {
 		r.R = "unavailable"
 	}
